@@ -144,21 +144,37 @@ func (sp *specParser) parseExprPrec(minPrec int) ast.Expr {
 
 func (sp *specParser) parseQuant() ast.Expr {
 	q := sp.next()
-	var names []*ast.Ident
-	names = append(names, ast.NewIdent(sp.expect(token.IDENT).lit))
-	for sp.peek().tok == token.COMMA {
-		sp.next()
-		names = append(names, ast.NewIdent(sp.expect(token.IDENT).lit))
+	type bind struct {
+		name *ast.Ident
+		typ  ast.Expr
 	}
-	var typ ast.Expr = ast.NewIdent("int")
-	if sp.peek().tok != token.COLON {
-		typ = sp.parseType()
+	var binds []bind
+	var pending []*ast.Ident
+	for {
+		pending = append(pending, ast.NewIdent(sp.expect(token.IDENT).lit))
+		if sp.peek().tok == token.COMMA {
+			sp.next()
+			continue
+		}
+		var typ ast.Expr = ast.NewIdent("int")
+		if sp.peek().tok != token.COLON {
+			typ = sp.parseType()
+		}
+		for _, n := range pending {
+			binds = append(binds, bind{n, typ})
+		}
+		pending = nil
+		if sp.peek().tok == token.COMMA {
+			sp.next()
+			continue
+		}
+		break
 	}
 	sp.expect(token.COLON)
 	sp.expect(token.COLON)
 	body := sp.parseExpr(0)
-	for i := len(names) - 1; i >= 0; i-- {
-		body = &ast.CallExpr{Fun: ast.NewIdent("$" + q.lit), Args: []ast.Expr{names[i], typ, body}}
+	for i := len(binds) - 1; i >= 0; i-- {
+		body = &ast.CallExpr{Fun: ast.NewIdent("$" + q.lit), Args: []ast.Expr{binds[i].name, binds[i].typ, body}}
 	}
 	return body
 }
